@@ -332,13 +332,13 @@ struct World {
                 return "def#" + std::to_string(d);
             }
         }
-        for (int f = 0; f < NDEF; ++f) {
+        for (std::size_t f = 0; f < mi.desc->defs.size(); ++f) {
             if (p == mi.desc->defs[f]) {
                 return "unregistered pool fn " + std::to_string(f);
             }
         }
         for (auto& other : meths) {
-            for (int f = 0; f < NDEF; ++f) {
+            for (std::size_t f = 0; f < other.desc->defs.size(); ++f) {
                 if (p == other.desc->defs[f]) {
                     return "a definition of another method";
                 }
